@@ -410,8 +410,25 @@ func c04Families(quick bool) []c04Fam {
 		}
 		return c04Fam{name: name, size: n, get: s.Get, str: fmt.Sprintf("%s (first %d of %d raw)", s, n, s.Size())}
 	}
+	// the same spaces with rule names that sort before the token names
+	named := func(f c04Fam) c04Fam {
+		get := f.get
+		f.name += "-names"
+		f.str += ", rules named Ea, Eb, .."
+		f.get = func(i int64) *gen.Grammar {
+			g := get(i)
+			if g != nil {
+				g.RenameRules(1)
+			}
+			return g
+		}
+		return f
+	}
 	if quick {
 		return []c04Fam{
+			named(sp("plain", gen.NewSpace(2, 2, 2, 2, false), 0, false)),
+			named(sp("plain-l3", gen.NewSpace(2, 2, 2, 3, false), 150000, false)),
+			named(ex("prec", gen.NewExprSpace(2, 1), 0)),
 			sp("plain", gen.NewSpace(2, 2, 2, 2, false), 0, false),
 			sp("plain-l3", gen.NewSpace(2, 2, 2, 3, false), 600000, false),
 			sp("plain3", gen.NewSpace(3, 2, 2, 2, false), 600000, false),
@@ -422,6 +439,9 @@ func c04Families(quick bool) []c04Fam {
 		}
 	}
 	return []c04Fam{
+		named(sp("plain", gen.NewSpace(2, 2, 2, 2, false), 0, false)),
+		named(sp("plain-t3", gen.NewSpace(2, 3, 2, 2, false), 0, false)),
+		named(ex("prec", gen.NewExprSpace(2, 1), 0)),
 		sp("plain", gen.NewSpace(2, 2, 2, 2, false), 0, false),
 		sp("plain-l3", gen.NewSpace(2, 2, 2, 3, false), 0, false),
 		sp("plain3", gen.NewSpace(3, 2, 2, 2, false), 20000000, false),
